@@ -18,11 +18,7 @@ STUB_DIRS = ['lib/upipe-ts', 'lib/upipe-framers']
 def load(tier, repo, rep, dirs_quick=QUICK_DIRS, dirs_thorough=THOROUGH_DIRS):
     dirs = dirs_quick if tier == 'quick' else dirs_thorough
     units = list_units(repo, dirs)
-    prog = facts.load_program(units, repo=repo, tolerate=True)
-    if tier == 'thorough' and os.path.isdir(os.path.join(facts.VERIF, 'stubs', 'bitstream')):
-        sprog = facts.load_program(list_units(repo, STUB_DIRS), repo=repo, stubs=True, tolerate=True)
-        prog.units.update(sprog.units)
-        prog.failed.update(sprog.failed)
+    prog = facts.load_with_stubs(units, list_units(repo, STUB_DIRS) if tier == 'thorough' else [], repo=repo)
     rep.units = sorted(prog.units)
     rep.not_analysed = {k: (v[0] if v else '') for k, v in prog.failed.items()}
     rep.nfuncs = sum(len(u.funcs) for u in prog.units.values()) + len(prog.hdr.funcs)
